@@ -16,7 +16,7 @@ pub mod brush_parser { pub mod word {
 } }
 pub trait VxOwned { spec fn vx_view(&self) -> Seq<char>; fn vx_owned(self) -> (r: String) ensures r@ == self.vx_view(); }
 impl VxOwned for String { open spec fn vx_view(&self) -> Seq<char> { self@ } #[verifier::external_body] fn vx_owned(self) -> (r: String) { self } }
-pub struct WordExpander { pub u: u8 }
+pub struct WordExpander { pub disable_command_substitutions: bool, pub u: u8 }
 pub uninterp spec fn tilde_spec(e: brush_parser::word::TildeExpr) -> Result<Seq<char>, error::Error>;
 impl WordExpander {
     // expansion.rs expand_tilde_expression (home directory / $PWD / $OLDPWD / user lookups): NOT verified, result uninterpreted
@@ -40,3 +40,47 @@ pub open spec fn single_splittable(e: Expansion, text: Seq<char>) -> bool {
 pub broadcast axiom fn axiom_string_to_string(s: String, r: String)
     requires #[trigger] to_string_from_display_ensures::<String>(&s, r),
     ensures r@ == s@;
+// ---- command substitution (POSIX XCU 2.6.3): "... removing sequences of one or more <newline> characters at the end of the
+//  substitution"; nothing else is removed (bash additionally drops NUL bytes with a warning).
+pub open spec fn strip_trailing(s: Seq<char>, set: Seq<char>) -> Seq<char> decreases s.len() {
+    if s.len() > 0 && set.contains(s.last()) { strip_trailing(s.drop_last(), set) } else { s }
+}
+pub open spec fn without_nul(s: Seq<char>) -> Seq<char> decreases s.len() {
+    if s.len() == 0 { Seq::empty() } else { let r = without_nul(s.drop_last()); if s.last() == '\0' { r } else { r.push(s.last()) } }
+}
+pub proof fn lemma_without_nul_id(s: Seq<char>)
+    requires !s.contains('\0'),
+    ensures without_nul(s) =~= s
+    decreases s.len()
+{
+    if s.len() > 0 {
+        assert forall|i: int| 0 <= i < s.drop_last().len() implies s.drop_last()[i] != '\0' by { assert(s.contains(s[i])); }
+        assert(!s.drop_last().contains('\0'));
+        lemma_without_nul_id(s.drop_last());
+        assert(s.contains(s.last()));
+        assert(s.drop_last().push(s.last()) =~= s);
+    }
+}
+pub uninterp spec fn subst_output_spec(command: Seq<char>) -> Result<Seq<char>, error::Error>;
+// R14 stubs
+#[verifier::external_body]
+pub fn invoke_command_in_subshell_and_get_output(self_: &mut WordExpander, s: String) -> (r: Result<String, error::Error>)
+    ensures match subst_output_spec(s@) { Ok(v) => r is Ok && r->Ok_0@ == v, Err(e) => r == Err::<String, error::Error>(e) }
+{ unimplemented!() }
+#[verifier::external_body]
+pub fn string_contains_char(s: &String, c: char) -> (r: bool) ensures r == s@.contains(c) { unimplemented!() }
+#[verifier::external_body]
+pub fn string_retain_not_nul(s: &mut String) ensures final(s)@ == without_nul(old(s)@) { unimplemented!() }
+#[verifier::external_body]
+pub fn warn_ignored_nul(self_: &mut WordExpander) -> (r: Result<(), error::Error>) { unimplemented!() }
+// str::trim_end_matches(pattern).len(): the byte length of the text without its trailing run of characters from the set
+#[verifier::external_body]
+pub fn trimmed_len_of(s: &String, set: &[char]) -> (r: usize)
+    ensures boundary(s@, r as int), exists|n: int| boundary_at(s@, r as int, n) && s@.take(n) == strip_trailing(s@, set@)
+{ unimplemented!() }
+// String::truncate(n): panics unless n is a char boundary (or beyond the end: then a no-op)
+#[verifier::external_body]
+pub fn string_truncate(s: &mut String, n: usize)
+    requires boundary(old(s)@, n as int),
+    ensures exists|k: int| boundary_at(old(s)@, n as int, k) && final(s)@ == old(s)@.take(k)
+{ unimplemented!() }
